@@ -369,6 +369,29 @@ func genRulesFor(r *rng.R, hosts, ports []string) []string {
 	return out
 }
 
+// chained rule lists: the output of one rule matches another rule (A->B, B->C), also cycles (A->B, B->A) and
+// port chains.  The redirect is applied ONCE to the address of the hop: with failing first dial attempts every
+// retry must go to the same, once-mapped address.
+var chainedRules = [][]string{
+	{"origin.test::rt.test:", "rt.test::rt2.test:"},
+	{"origin.test::other.test:", "other.test::origin.test:"},
+	{"pa.test:3128:pb.test:8443", "pb.test:8443:rt.test:9000", "rt.test:9000:rt2.test:9001"},
+	{"pa.test::pb.test:", "pb.test::pa.test:"},
+	{":80::9000", ":9000::9001", ":9001::80"},
+	{"::rt.test:", "rt.test::rt2.test:9000"},
+	{"localhost::127.0.0.9:", "127.0.0.9::[::1]:", "[::1]::localhost:"},
+	{"other.test:80:origin.test:8080", "origin.test:8080:other.test:80", "pb.test::pa.test:3128", "pa.test:3128:pb.test:80"},
+}
+
+func isChained(rules []string) bool {
+	for _, c := range chainedRules {
+		if len(c) == len(rules) && c[0] == rules[0] {
+			return true
+		}
+	}
+	return false
+}
+
 func bracketIfV6(h string) string {
 	if strings.Contains(h, ":") {
 		return "[" + h + "]"
@@ -966,6 +989,11 @@ func runConfigs(r *rng.R, nF, nE int, ss *shardSet, m *meta) {
 		{Upstream: "socks5://pa.test:3128", Mode: "direct"},
 		{Upstream: "https://pb.test:8443", Mode: "allow", Rules: []string{":8443:rt.test:"}},
 		{Mode: "allow", Rules: []string{"origin.test:80:rt.test:9000", "::rt2.test:"}},
+		{Mode: "allow", Rules: chainedRules[0]},
+		{Mode: "allow", Rules: chainedRules[1]},
+		{Upstream: "http://pa.test:3128", Mode: "allow", Rules: chainedRules[2]},
+		{PAC: &pacDesc{Table: map[string]string{}, Default: "SOCKS5 pa.test:1080"}, Mode: "allow", Rules: chainedRules[3]},
+		{Mode: "allow", Rules: chainedRules[4]},
 		{PAC: &pacDesc{Table: map[string]string{}, Default: "DIRECT", ByURL: map[string][3]string{
 			"origin.test": {"http:", "PROXY pa.test:3128", "PROXY pb.test:8443"},
 			"other.test":  {":80", "SOCKS5 pa.test:1080", "DIRECT"},
@@ -979,6 +1007,9 @@ func runConfigs(r *rng.R, nF, nE int, ss *shardSet, m *meta) {
 		d.Attempts = 1 + i%3
 		if i%4 == 3 {
 			d.FailFirst = 1
+		}
+		if len(d.Rules) > 0 && len(d.Rules[0]) > 0 && isChained(d.Rules) {
+			d.Attempts, d.FailFirst = 3, 1+i%2
 		}
 		jb := job{idx: len(jobs), desc: d}
 		for si, h := range []string{"origin.test", "other.test", "localhost"} {
@@ -1008,6 +1039,11 @@ func runConfigs(r *rng.R, nF, nE int, ss *shardSet, m *meta) {
 		d.Attempts = r.Intn(4) // 0 (= 1), 1, 2, 3
 		if r.Chance(1, 4) {
 			d.FailFirst = 1 + r.Intn(3)
+		}
+		if r.Chance(1, 4) { // chained / cyclic rules together with failing first attempts and retries
+			d.Rules = append([]string(nil), chainedRules[r.Intn(len(chainedRules))]...)
+			d.Attempts = 2 + r.Intn(2)
+			d.FailFirst = r.Intn(3)
 		}
 		es := []eJSON{genSession(r, &d), genSession(r, &d)}
 		jobs = append(jobs, job{idx: len(jobs), desc: d, e: es})
@@ -1090,6 +1126,12 @@ func runConfigs(r *rng.R, nF, nE int, ss *shardSet, m *meta) {
 		}
 		if e.Cfg.FailFirst > 0 {
 			m.Dist["e2e_with_dial_failures"]++
+		}
+		if isChained(e.Cfg.Rules) {
+			m.Dist["e2e_chained_connect_to"]++
+			if e.Cfg.FailFirst > 0 && e.Cfg.Attempts > 1 {
+				m.Dist["e2e_chained_connect_to_with_retry"]++
+			}
 		}
 	}
 	m.Counts["fcases"] = ss.write("fcases", "fcase", "fcase_model_ok", "fcase_prop_ok", fc, fj)
